@@ -73,8 +73,11 @@ ASSUMPTIONS = [
 TRUSTED_EXTRA = [
     "C18: the hand transcriptions of _coding_re, _PYTHON_MAGIC_COMMENT_re, CPython's UTF-8 decoder and repr()/ascii() are compared "
     "with the originals on every run (exhaustive small strings + random)",
-    "C18: tools/regen_encoding.py (constants, shape flags bomCompareByCodec/sourceStripsBom/namesWrittenAscii, the utf-8 alias "
-    "probe of the running interpreter)",
+    "C18: tools/regen_encoding.py - the recognisers it relies on: literals and branch shapes of decode_raw_stream, the shape "
+    "flags bomCompareByCodec (Lexer._is_utf8) / sourceStripsBom / namesWrittenAscii, the statement-order facts "
+    "decodeBeforePreprocessors / skipAfterPreprocessors (Lexer.parse) and magicCommentFirst with the `from __future__ import` "
+    "format (write_toplevel: first printer call in source order), the utf-8 alias probe of the running interpreter's codec "
+    "registry, and the ast.dump fingerprints of the six modelled functions",
 ]
 REGEN = ["Unicode", "Encoding"]
 
